@@ -201,3 +201,11 @@ Lemma rotation_same_flat b (x y z : kexpr) : b <> BThen -> flat (EBin b (EBin b 
 Proof.
   intros Hb. cbn [flat explode]. destruct b; try congruence; cbn [binop_eqb]; now rewrite app_assoc.
 Qed.
+
+(* the hypotheses of the run-grouping theorems are met by different trees: ([1] O [2]) O ([3] U [501]) against [1] O ([2] O ([3] U [501])) *)
+Example run_grouping_hypotheses_met :
+  let x := EBin BAnd (EAtom [51%N]) (EAtom k501) in
+  let e := EBin BOr (EBin BOr (EAtom [49%N]) (EAtom [50%N])) x in
+  let e' := EBin BOr (EAtom [49%N]) (EBin BOr (EAtom [50%N]) x) in
+  e <> e' /\ flat e = flat e' /\ dom e = true /\ dom e' = true /\ valid e = true /\ valid e' = true.
+Proof. cbv zeta. split; [discriminate|]. vm_compute. repeat split. Qed.
